@@ -681,3 +681,7 @@ Definition nonulb (v : bytes) : bool :=
   end.
 (* what libyang's JSON lexer accepts *)
 Definition jlexb (v : bytes) : bool := lexableb v && bytes_ok v.
+
+(* the schema is a forest numbered in pre-order: the sid of a node is larger than the sid of its data parent *)
+Definition parents_ltb (sch : schema) : bool :=
+  forallb (fun e : sid * sinfo => match si_parent (snd e) with Some q => q <? fst e | None => true end) sch.
